@@ -29,6 +29,7 @@ bookkeeping of MP4Tags.save (Model/Container/Mp4.lean) on a real file.
 -/
 import MutagenModel.Model.Container.Mp4
 import MutagenModel.Model.Container.Mp4M
+import MutagenModel.Model.Container.Mp4LoadM
 import Driver.Util
 import Driver.FlacC
 namespace Driver
@@ -89,6 +90,14 @@ def mp4Op (a : Args) : String :=
         let head := match r.1 with | none => "ok" | some e => s!"err {e.name}"
         let cov := covered f atoms R.parents off old ((new.length : Int) - old) (a.nat "n" 16)
         s!"{head} off={off} old={old} newlen={new.length} covered={if cov then 1 else 0} data={hexField r.2}"
+  | "loadm" =>
+    -- `loadM` (Model/Container/Mp4LoadM.lean): MP4(fileobj) after loadfile's read(0), without chapters, in a fault environment
+    -- -> ok tags=<-|n> items=<name:len,…> | err <PyErr>   data=<hex> pos=<n> log=<calls>
+    let s : FS := { data := a.bytes "data", pos := a.nat "pos" 0 }
+    showResult (loadM (envOf a) s) (fun r =>
+      match r.tags with
+      | none => "tags=- items=-"
+      | some cs => s!"tags={cs.length} items=" ++ (if cs.isEmpty then "-" else ",".intercalate (cs.map fun c => s!"{toHex c.1}:{c.2.length}")))
   | "m" =>
     let s : FS := { data := a.bytes "data", pos := a.nat "pos" 0 }
     showResult (saveEntryM (a.nat "B" 1048576) (a.bytes "ilst") (padOf a) (envOf a) s)
